@@ -346,7 +346,7 @@ def execute(case, perm=None):
     opts = case['opts']
     unit = opts['unit']
     run = harness.Run()
-    harness.begin_run(0.0)
+    harness.begin_run(0.0, seed=case.get('seed', 0))
     register_updaters()
     try:
         processes, topology = build(case, perm)
